@@ -207,19 +207,20 @@ pub fn add_raw(sh: &shell::Shell, line: &str, status: i32,
             return;
         }
     };
+    // the command line and the directory name are bound parameters:
+    // they may contain quotes or any other character.
     let sql = format!(
         "INSERT INTO \
          {} (inp, rtn, tsb, tse, sessionid, info) \
-         VALUES('{}', {}, {}, {}, '{}', 'dir:{}|');",
+         VALUES(?1, {}, {}, {}, '{}', ?2);",
         history_table,
-        str::replace(line.trim(), "'", "''"),
         status,
         tsb,
         tse,
         sh.session_id,
-        sh.current_dir,
     );
-    match conn.execute(&sql, []) {
+    let info = format!("dir:{}|", sh.current_dir);
+    match conn.execute(&sql, [line.trim(), info.as_str()]) {
         Ok(_) => {}
         Err(e) => println_stderr!("cicada: history: save error: {}", e),
     }
